@@ -2,6 +2,7 @@ import LJT.Model.DecompCtl
 import LJT.Proofs.SkipSM
 import LJT.Proofs.MergedSM
 import LJT.Proofs.MergedSM1
+import LJT.Proofs.CtxSM
 /-!
 # C08 - Partial decompression equals the same region of a full decode
 
@@ -231,6 +232,32 @@ theorem skip_honoured_exactly (c : Cfg) (hM : 0 < c.M) (hv : 0 < c.v) (calls : L
   have hinv : InvW true c s := (run_spec c hM hv calls (init c) (init_inv c hM hv)).1
   obtain ⟨_, h2, h3⟩ := skip_spec c s n hM hv hinv
   exact ⟨rfl, h2, h3⟩
+
+/-! ### the same when the upsampler needs context rows (fancy upsampling of vertically subsampled chroma) -/
+open LJT.Skip in
+/-- **Context rows: every history delivers rows computed from the right centre row group.**  The three-state main
+controller of jdmainct.c postpones the last row group of every iMCU row until the next iMCU row has been decoded; for
+every geometry with at least two row groups per iMCU row (context rows are never used below that) and every history of
+read(n) / skip(n) calls, each delivered row comes from the row group and row of the iMCU row that its scanline names.
+(The neighbouring row groups the fancy upsampler reads as context are not part of the model.) -/
+theorem context_rows_are_where_they_belong (c : Cfg) (hM : 2 ≤ c.M) (hv : 0 < c.v) (calls : List Call) :
+    ∀ ip ∈ (crun c (cinit c) calls).2, ip.2.2.1 < c.M ∧ ip.2.2.2 < c.v ∧ Prov.line c ip.2 = ip.1 ∧ ip.1 < c.H := by
+  intro ip hip
+  obtain ⟨h1, h2, h3, _, h5⟩ := (crun_spec c hM hv calls (cinit c) (cinit_inv c (by omega) hv)).2 ip hip
+  exact ⟨h1, h2, h3, h5⟩
+
+open LJT.Skip in
+/-- a skip is honoured exactly by the context-row machine too, after any history -/
+theorem context_skip_honoured_exactly (c : Cfg) (hM : 2 ≤ c.M) (hv : 0 < c.v) (calls : List Call) (n : Nat) :
+    let s := (crun c (cinit c) calls).1
+    (cskip c s n).2 = min n (c.H - s.y) ∧ (cskip c s n).1.y = s.y + min n (c.H - s.y) := by
+  intro s
+  have hinv : CInv c s := (crun_spec c hM hv calls (cinit c) (cinit_inv c (by omega) hv)).1
+  exact (cskip_spec c hM hv s n hinv).2
+
+-- non-vacuity: 4:2:0 with fancy upsampling (8 row groups of 2 rows), height 70: read 15, skip 1, read 3, skip 17, read 2
+open LJT.Skip in
+example : ((crun ⟨8, 2, 70⟩ (cinit ⟨8, 2, 70⟩) [.rd 2, .sk 13, .rd 2, .sk 17, .rd 2]).2).map (·.1) = [0, 1, 15, 16, 34, 35] := by decide
 
 /-! ### the same with the merged upsampler (jdmerge.c, 2:1 vertical sampling, spare row) -/
 open LJT.Skip in
